@@ -16,6 +16,7 @@ SMOKE = [
     ('MergeMech', 'MC_Merge_tokens.cfg', None),
     ('MergeMech', 'MC_Merge_addto_noenv.cfg', 'AddDisjoint'),
     ('Purity', 'MC_Purity_threadctx.cfg', 'ParsePure'),
+    ('IntValue', 'MC_IntValue_smoke.cfg', None),
 ]
 
 
